@@ -515,6 +515,10 @@ fn screened_ops(rng: &mut Rng, p: f32) -> Vec<Op> {
     ops.push(Op::Hash(th0));
     ops.push(Op::Compact(true));
     ops.push(Op::Compact(false));
+    // reset while everything so far was screened out (nothing retained, but not empty any more)
+    ops.push(Op::Reset);
+    ops.push(Op::Compact(true));
+    ops.push(Op::Hash(th0 + 7));
     ops.push(Op::Trim);
     ops.push(Op::Hash(th0 - 1));
     ops.push(Op::Compact(true));
@@ -569,8 +573,8 @@ pub fn record(args: &Args) {
         }
         if thorough && rep == 0 {
             // lg_k 13 and 14 (C01 quantifies to 14): past the first rebuild, exact and sampling
-            for &(lgk, p) in &[(13u8, 1.0f32), (14, 0.5)] {
-                let ops = random_ops(&mut rng, (5usize << lgk) / 2, 3, false);
+            for &(lgk, p) in &[(13u8, 1.0f32), (13, 0.5)] {
+                let ops = random_ops(&mut rng, (9usize << lgk) / 4, 3, false);
                 run(&mut out, "theta-random", lgk, 3, p, 9001, &ops);
             }
         }
